@@ -8,6 +8,7 @@ package main
 import (
 	"fmt"
 	"go/types"
+	"regexp"
 	"regexp/syntax"
 	"sync"
 
@@ -15,10 +16,10 @@ import (
 )
 
 type rxProg struct {
-	prog   *syntax.Prog
-	ncap   int
-	err    string     // non-empty: pattern not supported by the model
-	hiAll  map[int]bool // rune instructions admitting every rune >= 0x80
+	prog  *syntax.Prog
+	ncap  int
+	err   string       // non-empty: pattern not supported by the model
+	hiAll map[int]bool // rune instructions admitting every rune >= 0x80
 }
 
 var rxCache sync.Map
@@ -161,9 +162,9 @@ func (rp *rxProg) check() {
 }
 
 type rxRes struct {
-	ok   *Term
-	set  []*Term // per capture slot: assigned on the successful path from here
-	val  []*Term // 64-bit position
+	ok  *Term
+	set []*Term // per capture slot: assigned on the successful path from here
+	val []*Term // 64-bit position
 }
 
 type rxKey struct{ pc, pos int }
@@ -394,8 +395,27 @@ func inRegexFindSubmatch(e *Exec, fn *ssa.Function, a []Value) Value {
 	off := int(e.pick(w.off))
 	n := int(e.pick(w.len))
 	subj := w.b[off : off+n]
-	res := e.rxMatch(rv, subj)
 	byteSliceT := fn.Signature.Results().At(0).Type()
+	if sv, isStr := subjV.(*StringV); isStr {
+		if cs, ok := e.concreteString(sv); ok {
+			// concrete subject string: the real library decides (also unanchored patterns)
+			m := regexp.MustCompile(rv.Pattern).FindStringSubmatchIndex(cs)
+			if m == nil {
+				return e.zero(byteSliceT)
+			}
+			elemT := byteSliceT.Underlying().(*types.Slice).Elem()
+			out := e.newSlice(elemT, len(m)/2, len(m)/2, "FindStringSubmatch")
+			for g := 0; g < len(m)/2; g++ {
+				if m[2*g] < 0 {
+					out.Arr.Elems[g] = e.zero(elemT)
+					continue
+				}
+				out.Arr.Elems[g] = e.valFromWin(subjV, w.b, c.Int(int64(off+m[2*g])), c.Int(int64(m[2*g+1]-m[2*g])))
+			}
+			return out
+		}
+	}
+	res := e.rxMatch(rv, subj)
 	if !e.branch(res.ok) {
 		return e.zero(byteSliceT)
 	}
